@@ -19,5 +19,7 @@ open SamVerif.Heap SamVerif.PStr
 #print axioms bytesOf_lt
 #print axioms inline_tag_disjoint
 #print axioms raw_eq_iff
+#print axioms sweep_outside_window_unchanged
+#print axioms sweep_inside_window
 #print axioms cmpHandle_eq_zero_iff
 #print axioms cmpHandle_antisymm
